@@ -805,7 +805,7 @@ func c07WSCancel(tier string, seed int64, idx int, c c07Case, res *core.Result) 
 func c02HTTPSlowReceiver(tier string, seed int64, idx, j int, res *core.Result) {
 	burst := 5 + j%4
 	kind := []string{"server", "bidi"}[j%2]
-	res.Sample = map[string]any{"family": "http-slow-receiver", "kind": kind, "burst": burst}
+	res.Sample = map[string]any{"family": "http-slow-receiver", "kind": kind, "burst": burst, "one_message_of_5MiB": j%2 == 1}
 	res.Retire, res.NonTrivial, res.Evals = true, true, 1
 	setGMP([]int{4, 16}[j%2])
 	ctx, cancel := context.WithTimeout(context.Background(), 90*time.Second)
@@ -828,13 +828,26 @@ func c02HTTPSlowReceiver(tier string, seed int64, idx, j int, res *core.Result) 
 	var sendErr atomic.Value
 	handlerDone := make(chan struct{})
 	tag := fmt.Sprintf("hsr%d", idx)
+	big := j%2 == 1 // one message of 5 MiB in the middle of the burst
+	msg := func(i int) []byte {
+		if big && i == 1 {
+			return append([]byte("m1"), bytes.Repeat([]byte{'x'}, 5<<20)...)
+		}
+		return []byte(fmt.Sprintf("m%d", i))
+	}
+	short := func(b []byte) string {
+		if len(b) > 8 {
+			return fmt.Sprintf("%s..(%d bytes)", b[:2], len(b))
+		}
+		return string(b)
+	}
 	impl.SetStream(tag, func(t, k string, ss grpc.ServerStream) error {
 		defer close(handlerDone)
 		if k == "server" {
 			ss.RecvMsg(new(svc.BV))
 		}
 		for i := 0; i < burst; i++ {
-			if err := ss.SendMsg(&svc.BV{Value: []byte(fmt.Sprintf("m%d", i))}); err != nil {
+			if err := ss.SendMsg(&svc.BV{Value: msg(i)}); err != nil {
 				sendErr.Store(err)
 				return err
 			}
@@ -862,7 +875,7 @@ func c02HTTPSlowReceiver(tier string, seed int64, idx, j int, res *core.Result) 
 				end = err
 				return
 			}
-			got = append(got, string(m))
+			got = append(got, short(m))
 		}
 	}()
 	select {
@@ -883,7 +896,7 @@ func c02HTTPSlowReceiver(tier string, seed int64, idx, j int, res *core.Result) 
 	}
 	var want []string
 	for i := 0; i < burst; i++ {
-		want = append(want, fmt.Sprintf("m%d", i))
+		want = append(want, short(msg(i)))
 	}
 	if strings.Join(got, ",") != strings.Join(want, ",") {
 		res.Violate("caller-sequence-differs/http-slow-receiver", "over the HTTP transport every Send of the handler succeeded and it returned success, but the slow caller received [%s], sent [%s]", strings.Join(got, ","), strings.Join(want, ","))
@@ -1019,4 +1032,111 @@ func c19WSAbandonedWrite(tier string, idx int, res *core.Result) {
 		res.Stat("ws_abandoned_write_cases", 1)
 	}
 	res.Evals = 4
+}
+
+// c07HTTPCancel: over the shipped HTTP transport a streaming call is cancelled (or its deadline
+// fires) while the POST carrying one of its sends is still in flight (held in front of the server's
+// endpoint). The send returns, and the handler's context must be cancelled: the reset has to get
+// through although the aborted POST has just failed. HTTP involves kernel I/O and net/http's own
+// goroutines and timers, so there is no final-state argument here: 20 s without the handler's
+// context ending, on loopback with nothing else going on, is taken as "never" (assumption recorded
+// in the evidence); every other bound expiring is inconclusive.
+func c07HTTPCancel(tier string, seed int64, idx int, c c07Case, res *core.Result) {
+	setGMP(c.GMP)
+	res.Retire, res.NonTrivial, res.Evals = true, true, 1
+	ctx, cancel := context.WithTimeout(context.Background(), 120*time.Second)
+	defer cancel()
+	ident := func(src string) (string, error) { return src, nil }
+	tsS := httptest.NewUnstartedServer(nil)
+	tsC := httptest.NewUnstartedServer(nil)
+	srvAddr, cliAddr := tsS.Listener.Addr().String(), tsC.Listener.Addr().String()
+	goat.VerifResetTracking()
+	impl := svc.NewImpl()
+	srv := goat.NewServer(srvAddr)
+	srv.RegisterService(&svc.Desc, impl)
+	gS := goat.NewGoatOverHttp(func(id string, rw goat.RpcReadWriter) { go srv.Serve(ctx, rw) }, ident)
+	gC := goat.NewGoatOverHttp(func(id string, rw goat.RpcReadWriter) {}, ident)
+	var armed atomic.Bool
+	held := make(chan struct{}, 1)
+	release := make(chan struct{})
+	tsS.Config.Handler = http.HandlerFunc(func(w http.ResponseWriter, r *http.Request) {
+		if armed.CompareAndSwap(true, false) {
+			held <- struct{}{}
+			<-release
+		}
+		gS.ServeHTTP(w, r)
+	})
+	tsC.Config.Handler = gC
+	tsS.Start()
+	tsC.Start()
+	defer func() { cancel(); gS.Cancel(); gC.Cancel(); tsS.Close(); tsC.Close() }()
+	var entered, ctxDone atomic.Bool
+	impl.DefS = func(tag, kind string, ss grpc.ServerStream) error {
+		if ss.RecvMsg(new(svc.BV)) == nil {
+			entered.Store(true)
+		}
+		for ss.RecvMsg(new(svc.BV)) == nil {
+		}
+		select {
+		case <-ss.Context().Done():
+			ctxDone.Store(true)
+		case <-ctx.Done():
+		}
+		return ss.Context().Err()
+	}
+	cc := goat.NewClientConn(gC.NewConnection(srvAddr), cliAddr, srvAddr)
+	m := svc.NewManualCtx(ctx)
+	st, err := svc.Open(m, cc, "bidi", fmt.Sprintf("hc%d", idx), nil)
+	if err == nil {
+		err = st.Send([]byte("first"))
+	}
+	if err != nil {
+		res.Verdict, res.Note = core.Inconclusive, "stream did not open over HTTP: "+err.Error()
+		return
+	}
+	waitFor := func(cond func() bool, d time.Duration) bool {
+		dl := time.Now().Add(d)
+		for !cond() {
+			if time.Now().After(dl) {
+				return false
+			}
+			time.Sleep(2 * time.Millisecond)
+		}
+		return true
+	}
+	if !waitFor(entered.Load, 15*time.Second) {
+		res.Verdict, res.Note = core.Inconclusive, "handler did not start within 15 s"
+		return
+	}
+	armed.Store(true)
+	sendRet := make(chan struct{})
+	go func() { st.Send([]byte("second")); close(sendRet) }()
+	select {
+	case <-held:
+	case <-time.After(15 * time.Second):
+		res.Verdict, res.Note = core.Inconclusive, "the send's POST did not reach the server endpoint within 15 s"
+		close(release)
+		return
+	}
+	if c.How == "deadline" {
+		m.Fire()
+	} else {
+		m.Cancel()
+	}
+	select {
+	case <-sendRet:
+	case <-time.After(15 * time.Second):
+		res.Verdict, res.Note = core.Inconclusive, "the cancelled send did not return within 15 s"
+		close(release)
+		return
+	}
+	close(release)
+	res.Stat("cancellations_checked", 1)
+	if !waitFor(ctxDone.Load, 20*time.Second) {
+		res.Violate("handler-left-running-with-live-context/http-send-in-flight", "%s while the POST of a send was in flight over the HTTP transport: 20 s later the handler's context is still live (the reset never arrived)", c.How)
+		return
+	}
+	res.Stat("handler_contexts_checked", 1)
+	res.Stat("http_cancel_during_send_cases", 1)
+	res.Stat("resets_observed", 1)
 }
